@@ -6,7 +6,7 @@ import (
 
 func init() {
 	Register(&Scenario{Prop: "C01", Name: "same-set-same-state", Run: scenC01, SoftParks: true, Weight: 1,
-		Rule: "2-4 replicas (1-3 writers, rest observers) of a key-value, event-log or document database with per-replica ReplicationConcurrency in {1,2,32} and ReferenceCount in {1,2,64}; 4-14 (thorough 4-40) writes whose causal shape comes from partial replication between writers; entries reach replicas by announced heads, head exchange on join, manual Sync of (shuffled, duplicated) heads, clean restart or crash + Load(-1), an observer's saved snapshot + restart + LoadFromSnapshot, under reorder/dup/drop/cut/heal, shuffled fetch completion and (1 run in 2) failing block fetches that are retried on a later announcement (1 run in 3: the first remote fetch of about half the entries fails, so ancestors arrive after their descendants); at every quiescent step every pair of replicas with equal entry sets must have equal log order and equal visible state; non-trivial = at least one compared pair held >=3 entries by >=2 authors (or a fork) and was compared at >=2 distinct sets"})
+		Rule: "2-4 replicas (1-3 writers, rest observers) of a key-value, event-log or document database with per-replica ReplicationConcurrency in {1,2,32} and ReferenceCount in {1,2,64}; 4-14 (thorough 4-40) writes (some of them bursts of 2-3 concurrent writers on one replica, stepped through the write path or free-running under seeded yields, the client of one of them possibly giving up mid-write) whose causal shape comes from partial replication between writers; entries reach replicas by announced heads, head exchange on join, manual Sync of (shuffled, duplicated) heads, clean restart or crash + Load(-1), an observer's saved snapshot + restart + LoadFromSnapshot, under reorder/dup/drop/cut/heal, shuffled fetch completion and (1 run in 2) failing block fetches that are retried on a later announcement (1 run in 3: the first remote fetch of about half the entries fails, so ancestors arrive after their descendants); at every quiescent step every pair of replicas with equal entry sets must have equal log order and equal visible state; non-trivial = at least one compared pair held >=3 entries by >=2 authors (or a fork) and was compared at >=2 distinct sets"})
 }
 
 func scenC01(k *K) {
@@ -19,6 +19,7 @@ func scenC01(k *K) {
 	c := k.NewCluster(ClusterCfg{N: n, Type: typ, PeerOpts: append(transportOpt(k), WithKnobs(Knobs{Concurrency: conc, RefCount: refc}))})
 	k.F = swarmFaults(k, true)
 	c.FetchFailures()
+	c.BurstCancel = k.C.Chance(1, 2)
 	nops := k.C.Range(4, 14)
 	if Tier == "thorough" {
 		nops = k.C.Range(4, 40)
@@ -51,7 +52,12 @@ func scenC01(k *K) {
 	var syncs []*Op
 	hasSnap := map[int]bool{}
 	for i := 0; i < nops; i++ {
-		switch k.C.Weighted([]int{6, 2, 1, 1, 1}) {
+		switch k.C.Weighted([]int{6, 2, 1, 1, 1, 2}) {
+		case 5:
+			node := k.C.Intn(nw)
+			if c.Stores[node] != nil {
+				c.WriteBurst(node, k.C.Range(2, 3), k.C.Chance(1, 2))
+			}
 		case 4:
 			// an observer saves a snapshot; a later restart of it may load from the snapshot
 			if n > nw {
